@@ -1,7 +1,7 @@
 From Coq Require Extraction.
 From Coq Require Import ExtrOcamlBasic.
 From OlaBase Require Import Bytes.
-From C15 Require Import Model Sender Cross Multi Len32.
+From C15 Require Import Model Sender Cross Multi Len32 Sender2.
 Extraction Language OCaml.
 Extraction "model.ml" io_witness N.div_eucl init step free_blocks blocks_allocated acct_ok
-  noempty_ok buf_layout xinit xstep be_value size32 cross_run cross_acct_ok init2 step2 pool_obs acct2_ok noempty2_ok natlen buf_size.
+  noempty_ok buf_layout xinit xstep be_value size32 cross_run cross_acct_ok init2 step2 pool_obs acct2_ok noempty2_ok natlen buf_size yinit ystep destroy_private.
